@@ -18,11 +18,22 @@ C09Env ==
               \/ (\E j \in 1..Len(Src.lists) : (Src.lists[j].id = Obs.instances[i].id /\ ~Src.lists[j].inline))
               \/ (\E j \in 1..Len(Src.externals) : Src.externals[j][1] = Obs.instances[i].id))
   /\ Check("itemsets_csv_cell_for_cell", Obs.csv = Src.csv)
+\* clauses that need no knowledge of the source (the frozen test-suite corpus and forms of other generators): instance ids are
+\* unique, every itemset reads from a declared instance, and items of one instance have unique itextIds
+C09Free ==
+  /\ Check("instance_ids_unique", NoDupSeq([i \in 1..Len(Obs.instances) |-> Obs.instances[i].id]))
+  /\ Check("itemset_reads_a_declared_instance",
+           \A i \in 1..Len(Obs.reads) : \E j \in 1..Len(Obs.instances) : Obs.instances[j].id = Obs.reads[i])
+  /\ Check("item_itext_ids_unique", \A i \in 1..Len(Obs.instances) : NoDupSeq(Obs.instances[i].itext_ids))
+TFree == /\ l <= Len(T) /\ Ev.ev = "choices_free"
+         /\ Check("converted", Ev.status = "ok")
+         /\ C09Free
+         /\ l' = l + 1 /\ UNCHANGED <<tid, gvars>>
 TInit == tid \in 1..Len(Traces) /\ l = 1 /\ cfg = <<>> /\ sels = <<>> /\ phase = "trace"
 TStep == /\ l <= Len(T) /\ Ev.ev = "choices"
          /\ Check("converted", Ev.status = "ok")
          /\ C09Env
          /\ l' = l + 1 /\ UNCHANGED <<tid, gvars>>
-TSpec == TInit /\ [][TStep]_<<gvars, tid, l>>
+TSpec == TInit /\ [][TStep \/ TFree]_<<gvars, tid, l>>
 Accepted == (l = Len(T) + 1) => PrintT(<<"ACCEPT", tid>>)
 =============================================================================
